@@ -47,6 +47,10 @@ function removeRewrittenSourceMap (filename) {
 function getFilePathFromName (filename) {
   const filenameParts = filename.split(path.sep)
   filenameParts.pop()
+  // a file directly under the root: its directory is the root, not the empty (relative) path
+  if (filenameParts.length === 1 && filenameParts[0] === '' && path.isAbsolute(filename)) {
+    return path.sep
+  }
   return filenameParts.join(path.sep)
 }
 
